@@ -3,9 +3,8 @@
   Scc/X86/Machine.lean with undefined-value tracking ("poison": the external call makes rax rcx rdx rsi
   rdi r8–r11, the flags and all stack memory below rsp undefined; any USE of an undefined value faults).
 
-  * `C13_statement` — the full property, kept as a `def : Prop` (NOT proved as a whole: it needs the
-    per-statement frame lemmas of C06 composed over whole runs).
-  * PROVED:
+  * `C13_statement` — the full property, kept as a `def : Prop` (NOT proved as a whole).
+  * PROVED, PER METHOD (for every context):
       `C13_prologue_epilogue`  setup ++ body ++ cleanup restores rbx rbp r12–r15 and rsp and keeps the
                                caller's stack, for ANY body that has rsp at its boundaries where the
                                prologue put it and does not write the save area or above
@@ -19,11 +18,61 @@
                                poison machine runs without fault, prints exactly the source's value and
                                preserves rsp, HEAP, FREE, every temporary of every live variable
                                (registers and spill slots) and the heap
+  * PROVED, WHOLE PROGRAMS, STATIC (text level; ANY program that `compileX86` accepts, no other
+    hypothesis — capacity = the compiler succeeds; proofs: Scc/Backend/ProofsShape.lean = induction over
+    the generic code generator, Scc/X86/CCProofsStatic.lean, CCProofsSites.lean):
+      `C13_static_shape`       the body is a sequence of PLAIN instructions (`plainCC`: not push / pop /
+                               call / ret, `rsp` not written, `rsp`-relative operands inside the spill
+                               area) and of WHOLE print blocks `printI64 nl t ctx`, `t` the `Snd` temporary
+                               of a variable of `ctx` (= the context of the `print` statement)
+      (i)  `C13_static_call_sites`   every `call` of the body is the call of a print block: preceded by
+                               argument staging + save sequence + argument move, followed by the restore
+                               sequence, of ONE context; `C13_static_saved_exact`: the saved registers are
+                               EXACTLY the caller-save registers rax…r11 holding a live temporary of that
+                               context; `C13_static_save_restore_mirror`: restore = save undone (same
+                               backup registers, padding removed iff added, pops in reverse push order);
+                               `C13_static_backup_free`: backup registers are free callee-saved r12…r15
+      (ii) `C13_static_call_parity`  at every call site of the ROUTINE the static displacement of rsp
+                               from the routine entry is ≡ 8 (mod 16) (⇒ rsp ≡ 0 at the call, given the
+                               ABI entry condition: `call_aligned_of_parity`); `C13_static_balanced`: the
+                               displacement at the final `ret` is 0
+      (iii) `C13_static_routine`     routine = head ++ body ++ epilogue ++ [ret]; the prologue pushes
+                               `calleeSaved` (ALL callee-saved registers of the machine model) and the
+                               epilogue pops them in reverse order; `C13_static_spill_area`: every
+                               rsp-relative operand of the routine lies in the 2048 bytes the prologue
+                               reserves
+      (iv) `C13_static_sp_writers`   an instruction of the body that writes rsp (or is a push / pop /
+                               call / ret) lies inside a print block; `C13_codeWrites_sound`: `codeWrites`
+                               / `codeMems` are sound for the machine (`execCode_fr`).
+          rbp is NOT a frame pointer in this backend: it is the allocator register FREE, an ordinary
+          callee-saved register that the prologue saves and the epilogue restores (like rbx = HEAP).
+  * PROVED, WHOLE PROGRAMS, DYNAMIC, INTEGER PROGRAMS (`IntProg` of C06Generic + `LinTypedProg`, or the
+    syntactic `IntProgC`; Scc/X86/CCProofsFrame.lean, CCProofsSeg.lean, CCProofsRun.lean):
+      `C13_cc_never_fires_int`  THE CALLING-CONVENTION MONITOR NEVER FIRES: for all arguments (any
+                               number ≤ 5, any values), ALL fuel (non-terminating runs included), every
+                               monitor configuration, the result of the machine on the items of the
+                               routine is never `cc-violation`, never `misaligned-call`, never
+                               `ret-to-non-sentinel` (`CCSafe`).  No typing or definedness hypothesis is
+                               used: the invariant is purely about rsp, the save area and the return word.
+                               `C13_cc_never_fires_int_text`: the same for `run (printProg routine)` given
+                               that the text loads (`TextLoads` of C06X86: parser ∘ printer, not proved).
+      `C13_int_terminating`    with Theorem A∘B for integer programs (`C06_int_programs`): if the AxCut run
+                               terminates, then for EVERY fuel the machine result is `outOfFuel` or `done v`
+                               — the full `C13_allowed` for these runs.
+    WHAT REMAINS of `C13_statement`: (1) programs with heap statements: a store through a register
+    other than rsp could reach the save area unless the register holds a heap pointer — needs the heap
+    invariant of Theorem A∘B for `let/switch/create/invoke` (memory contracts exist per method, the
+    composition does not); the STATIC theorems above already cover these programs; (2) "no undefined
+    value is ever used" for runs that do not terminate (needs the step-indexed simulation, not only its
+    terminating corollary); (3) the parser round trip (`TextLoads`).
     CALLER_SAVE_FIRST = 4, CALLER_SAVE_LAST = 11, REGISTER_NUM = 16, RESERVED = 4 enter through
     Scc/X86/Consts.lean (`callerSaveRegistersInfo`, `backupRegistersUsed`).
 -/
 import Scc.X86.ProofsPrint
 import Scc.AxCut.LinTyping
+import Scc.X86.CCProofsRun
+import Scc.Backend.ProofsShapeInt
+import Scc.Props.C06X86
 
 namespace Scc.X86
 open Scc.AxCut
@@ -133,7 +182,217 @@ example : ∃ st', execSeq {} (fun _ => none)
   · exact K.snd 1 _ rfl (by decide)
   · exact K.snd 0 _ rfl (by decide)
 
+/-! ## WHOLE PROGRAMS: static (text-level) facts — every program the compiler accepts -/
+
+open Scc.Backend.Shape (IntProgC intProgC_of_intProg)
+open Scc.Props.C06Generic (IntProg)
+
+/-- SHAPE: plain instructions and whole print blocks -/
+theorem C13_static_shape {p : AxCut.Prog} {hooks : Bool} {c0 : Nat} {body : List Code} {nargs : Nat}
+    (h : compileX86 p hooks c0 = .ok (body, nargs)) : CCShape plainCC body := compile_ccShape h
+
+/-- what "plain" means: not push / pop / call / ret; `rsp` not written; `rsp`-relative operands in the
+spill area -/
+theorem C13_plain_spec {code : Code} (h : plainCC code = true) :
+    isStackOp code = false ∧ 0 ∉ codeWrites code ∧ ∀ bi ∈ codeMems code, bi.1 = 0 → slotOK bi.2 = true :=
+  plainCC_spec h
+
+/-- (i) every call site is the call of a print block of ONE context -/
+theorem C13_static_call_sites {p : AxCut.Prog} {hooks : Bool} {c0 : Nat} {body : List Code} {nargs : Nat}
+    (h : compileX86 p hooks c0 = .ok (body, nargs)) {pre post : List Code} {f : String}
+    (e : body = pre ++ Code.CALL f :: post) :
+    ∃ pre' nl t ctx post', PrintSrc ctx t ∧ CCShape plainCC pre' ∧ CCShape plainCC post' ∧
+      f = printFn nl ∧ pre = pre' ++ blockBefore t ctx ∧ post = blockAfter ctx ++ post' :=
+  ccShape_call_site (compile_ccShape h) e
+
+/-- (i) the registers the block saves are EXACTLY the caller-save registers holding a live temporary -/
+theorem C13_static_saved_exact (ctx : Ctx) (r : Nat) :
+    r ∈ (callerSaveRegistersInfo ctx).2 ↔ (4 ≤ r ∧ r ≤ 11 ∧ LiveReg ctx r) := mem_callerSave_iff ctx r
+
+/-- (i) the restore sequence is the save sequence undone -/
+theorem C13_static_save_restore_mirror (first : Nat) (L : List Nat) :
+    ∃ (moved pushed : List Nat) (pad : Bool), moved ++ pushed = L ∧
+      saveCallerSaveRegisters first L =
+        backupMoves first moved 0 ++ pushed.map Code.PUSH ++ (if pad then [Code.SUBI 0 8] else []) ∧
+      restoreCallerSaveRegisters first L =
+        restoreMoves first moved 0 ++ (if pad then [Code.ADDI 0 8] else []) ++ pushed.reverse.map Code.POP :=
+  save_restore_mirror first L
+
+/-- (i) the backup registers are free callee-saved registers -/
+theorem C13_static_backup_free (ctx : Ctx) :
+    12 ≤ (callerSaveRegistersInfo ctx).1 ∧ 2 * ctx.length + 4 ≤ (callerSaveRegistersInfo ctx).1 ∧
+    ((callerSaveRegistersInfo ctx).1 + backupRegistersUsed (callerSaveRegistersInfo ctx).1
+      (callerSaveRegistersInfo ctx).2 ≤ 16 ∨
+     backupRegistersUsed (callerSaveRegistersInfo ctx).1 (callerSaveRegistersInfo ctx).2 = 0) :=
+  backupRegs_free ctx
+
+/-- (ii) parity of the pushes between the routine entry and every call site -/
+theorem C13_static_call_parity {p : AxCut.Prog} {hooks : Bool} {c0 : Nat} {body routine : List Code}
+    {nargs : Nat} (h : compileX86 p hooks c0 = .ok (body, nargs)) (hr : intoRoutine body nargs = .ok routine)
+    {pre post : List Code} {f : String} (e : routine = pre ++ Code.CALL f :: post) : spSum pre % 16 = 8 :=
+  routine_call_parity (compile_ccShape h) hr e
+
+/-- (ii)/(iii) the routine is balanced: displacement 0 at the final `ret` -/
+theorem C13_static_balanced {p : AxCut.Prog} {hooks : Bool} {c0 : Nat} {body routine : List Code}
+    {nargs : Nat} (h : compileX86 p hooks c0 = .ok (body, nargs)) (hr : intoRoutine body nargs = .ok routine) :
+    spSum routine.dropLast = 0 ∧ routine.getLast? = some Code.RET :=
+  routine_balanced (compile_ccShape h) hr
+
+/-- (iii) anatomy of the routine and pairing of prologue and epilogue -/
+theorem C13_static_routine {body routine : List Code} {n : Nat} (h : intoRoutine body n = .ok routine) :
+    (∃ moves, moveArguments n = .ok moves ∧
+      routine = routineHead moves ++ body ++ (epilogue ++ [Code.RET])) ∧
+    prologue = [Code.COMMENT "setup", Code.COMMENT "save registers"] ++ calleeSaved.map Code.PUSH ++
+      [Code.COMMENT "reserve space for register spills", Code.SUBI 0 2048,
+       Code.COMMENT "initialize heap pointer", Code.MOV 2 7, Code.COMMENT "initialize free pointer",
+       Code.MOV 3 2, Code.ADDI 3 64] ∧
+    epilogue = [Code.LAB "cleanup", Code.COMMENT "free space for register spills", Code.ADDI 0 2048,
+       Code.COMMENT "restore registers"] ++ calleeSaved.reverse.map Code.POP :=
+  ⟨routine_anatomy h, prologue_epilogue_pairing⟩
+
+/-- (iii) every rsp-relative operand of the routine lies inside the reserved spill area -/
+theorem C13_static_spill_area {p : AxCut.Prog} {hooks : Bool} {c0 : Nat} {body routine : List Code}
+    {nargs : Nat} (h : compileX86 p hooks c0 = .ok (body, nargs)) (hr : intoRoutine body nargs = .ok routine) :
+    routine.all spillRefsOK = true := routine_spill_refs (compile_ccShape h) hr
+
+/-- (iv) whatever writes rsp (or pushes / pops / calls / returns) in the body is part of a print block -/
+theorem C13_static_sp_writers {p : AxCut.Prog} {hooks : Bool} {c0 : Nat} {body : List Code} {nargs : Nat}
+    (h : compileX86 p hooks c0 = .ok (body, nargs)) (k : Nat) (code : Code) (hk : body[k]? = some code)
+    (hw : isStackOp code = true ∨ 0 ∈ codeWrites code) :
+    ∃ j nl t ctx, PrintSrc ctx t ∧ j ≤ k ∧ k < j + (printI64 nl t ctx).length ∧
+      (body.drop j).take (printI64 nl t ctx).length = printI64 nl t ctx := by
+  apply ccShape_nonplain_in_block (compile_ccShape h) k code hk
+  cases hp : plainCC code with
+  | false => rfl
+  | true =>
+    obtain ⟨h1, h2, _⟩ := plainCC_spec hp
+    rcases hw with hw | hw
+    · rw [h1] at hw; cases hw
+    · exact absurd hw h2
+
+/-- (iv) soundness of `codeWrites` / `codeMems` for the machine: an instruction other than push / pop
+changes at most the registers it is said to write and the stack words its memory operands address -/
+theorem C13_codeWrites_sound {c : MachCfg} {la : String → Option Nat} {code : Code} {s s' : State} {ctl : Ctl}
+    (h : execCode c la code s = .ok (s', ctl)) (hns : isStackOp code = false) :
+    Fr (codeWrites code) (MemAddrs s code) s s' := execCode_fr h hns
+
+/-! ## WHOLE PROGRAMS: dynamic — the calling-convention monitor never fires (integer programs) -/
+
+open Scc.X86.CC (CCSafe CfgCC cfgCC_default)
+
+/-- C13 (b) for INTEGER PROGRAMS, every run: the result is never a report of the calling-convention
+monitor.  `items`: any item list that agrees with the routine up to the text of comments (what the
+machine's parser produces). -/
+theorem C13_cc_never_fires_int (p : AxCut.Prog) (htp : LinTypedProg p) (hip : IntProg p) (hooks : Bool)
+    (c0 : Nat) (body routine : List Code) (nargs : Nat) (hc : compileX86 p hooks c0 = .ok (body, nargs))
+    (hr : intoRoutine body nargs = .ok routine) (cfg : MonCfg) (H : CfgCC cfg.mach)
+    (items : List (Code × Nat)) (hitems : (items.map (·.1)).map CC.stripC = routine.map CC.stripC)
+    (args : List Word) (fuel : Nat) :
+    CCSafe (CC.runItems items args fuel cfg).res :=
+  CC.cc_safe_items (intProgC_of_intProg hip htp) hc hr cfg H items hitems args fuel
+
+theorem stripC_eq : Ref.stripC = CC.stripC := by
+  funext code
+  cases code <;> rfl
+
+theorem runItems_eq : @Ref.runItems = @CC.runItems := rfl
+
+/-- … on the TEXT of the routine, given that it loads (`TextLoads`, Props/C06X86.lean) -/
+theorem C13_cc_never_fires_int_text (p : AxCut.Prog) (htp : LinTypedProg p) (hip : IntProg p) (hooks : Bool)
+    (c0 : Nat) (body routine : List Code) (nargs : Nat) (hc : compileX86 p hooks c0 = .ok (body, nargs))
+    (hr : intoRoutine body nargs = .ok routine) (cfg : MonCfg) (H : CfgCC cfg.mach)
+    (hload : TextLoads routine) (args : List Word) (fuel : Nat) :
+    CCSafe (run (printProg routine) args fuel cfg).res := by
+  obtain ⟨items, hparse, hitems⟩ := hload
+  rw [stripC_eq] at hitems
+  exact CC.cc_safe_run (intProgC_of_intProg hip htp) hc hr cfg H hparse hitems args fuel
+
+/-! ## WHOLE PROGRAMS: terminating runs of integer programs satisfy the full statement -/
+
+open Scc.Props.C06Generic (Reachable WithinCapacity) in
+open Scc.Props.C14Generic (LabelSafe) in
+/-- C13 for TERMINATING RUNS OF INTEGER PROGRAMS (through Theorem A∘B, `C06_int_programs`): if the
+AxCut positional machine finishes with `done v`, then for EVERY amount of fuel the machine on the items
+of the routine ends in `outOfFuel` or `done v` — both allowed by `C13_allowed`: at `ret` the
+callee-saved registers and rsp are restored, every call was aligned, nothing undefined was used. -/
+theorem C13_int_terminating (p : AxCut.Prog) (args : List Word) (hooks : Bool) (body routine : List Code)
+    (nargs : Nat) (d0 : Def)
+    (hsafe : LabelSafe p = true) (htp : LinTypedProg p) (hip : IntProg p) (hrange : ProgInRange p)
+    (hcompX : compileX86 p hooks 0 = .ok (body, nargs)) (hrout : intoRoutine body nargs = .ok routine)
+    (hd : p.defs.head? = some d0)
+    (hcap : ∀ st, Reachable p ⟨d0.ctx, args.map .int, d0.body⟩ st → WithinCapacity st.ctx)
+    (fuel : Nat) (out : List (Bool × Word)) (v : Word) (hrun : Pos.run p args fuel = ⟨out, .done v⟩)
+    (cfg : MonCfg) (MO : Ref.MachOK cfg.mach) (hheap : cfg.heap = false)
+    (items : List (Code × Nat)) (hitems : (items.map (·.1)).map Ref.stripC = routine.map Ref.stripC) :
+    ∀ fuel', C13_allowed (Ref.runItems items args fuel' cfg).res := by
+  obtain ⟨f0, _, h2⟩ := C06_int_programs p args hooks body routine nargs d0 hsafe htp hip hrange hcompX
+    hrout hd hcap fuel out v hrun cfg MO hheap items hitems
+  intro fuel'
+  rcases CC.runItems_res_of_done (items := items) (args := args) (cfg := cfg) (f0 := f0) (v := v) h2 fuel'
+    with h | h
+  · show C13_allowed (CC.runItems items args fuel' cfg).res
+    rw [h]; trivial
+  · show C13_allowed (CC.runItems items args fuel' cfg).res
+    rw [h]; trivial
+
+/-! ## Non-vacuity of the whole-program theorems: the counting loop of C06X86 (a `println`, an `ifc`,
+arithmetic, a substitution and a `call` back to the entry) -/
+
+/-- its body has the shape, its routine the parity / balance / spill-area properties -/
+example : ∃ body routine, compileX86 C06_loopProg true 0 = .ok (body, 2) ∧
+    intoRoutine body 2 = .ok routine ∧ CCShape plainCC body ∧ routine.all spillRefsOK = true ∧
+    spSum routine.dropLast = 0 := by
+  have hok : ∃ r, compileX86 C06_loopProg true 0 = .ok r := ⟨_, rfl⟩
+  obtain ⟨⟨body, nargs⟩, hcomp⟩ := hok
+  have hnargs : nargs = 2 := by
+    have : compileX86 C06_loopProg true 0 = .ok ((compileX86 C06_loopProg true 0 |>.toOption.getD ([], 0)).1, 2) := rfl
+    rw [hcomp] at this
+    injection this with this
+    injection this
+  subst hnargs
+  have hok2 : ∃ r, intoRoutine body 2 = .ok r := by
+    have : ∃ moves, moveArguments 2 = .ok moves := ⟨_, rfl⟩
+    obtain ⟨moves, hm⟩ := this
+    exact ⟨_, by unfold intoRoutine; rw [setup_eq 2 moves hm]⟩
+  obtain ⟨routine, hrout⟩ := hok2
+  exact ⟨body, routine, hcomp, hrout, C13_static_shape hcomp, C13_static_spill_area hcomp hrout,
+    (C13_static_balanced hcomp hrout).1⟩
+
+/-- … and on its routine the calling-convention monitor never fires, for ALL arguments and ALL fuel
+(the loop does not terminate for every argument within a given fuel) -/
+example : ∃ routine : List Code, ∀ (args : List Word) (fuel : Nat),
+    CCSafe (CC.runItems (routine.map fun c => (c, 0)) args fuel {}).res := by
+  have hok : ∃ r, compileX86 C06_loopProg true 0 = .ok r := ⟨_, rfl⟩
+  obtain ⟨⟨body, nargs⟩, hcomp⟩ := hok
+  have hnargs : nargs = 2 := by
+    have : compileX86 C06_loopProg true 0 = .ok ((compileX86 C06_loopProg true 0 |>.toOption.getD ([], 0)).1, 2) := rfl
+    rw [hcomp] at this
+    injection this with this
+    injection this
+  subst hnargs
+  have hok2 : ∃ r, intoRoutine body 2 = .ok r := by
+    have : ∃ moves, moveArguments 2 = .ok moves := ⟨_, rfl⟩
+    obtain ⟨moves, hm⟩ := this
+    exact ⟨_, by unfold intoRoutine; rw [setup_eq 2 moves hm]⟩
+  obtain ⟨routine, hrout⟩ := hok2
+  exact ⟨routine, fun args fuel => C13_cc_never_fires_int C06_loopProg (linTypedCheck_sound C06_loopProg rfl)
+    C06_loopProg_int true 0 body routine 2 hcomp hrout {} cfgCC_default _
+    (by simp [List.map_map, Function.comp]) args fuel⟩
+
 end Scc.X86
+
+#print axioms Scc.X86.C13_static_shape
+#print axioms Scc.X86.C13_static_call_sites
+#print axioms Scc.X86.C13_static_saved_exact
+#print axioms Scc.X86.C13_static_call_parity
+#print axioms Scc.X86.C13_static_balanced
+#print axioms Scc.X86.C13_static_routine
+#print axioms Scc.X86.C13_static_spill_area
+#print axioms Scc.X86.C13_static_sp_writers
+#print axioms Scc.X86.C13_codeWrites_sound
+#print axioms Scc.X86.C13_cc_never_fires_int
+#print axioms Scc.X86.C13_cc_never_fires_int_text
+#print axioms Scc.X86.C13_int_terminating
 
 #print axioms Scc.X86.C13_prologue_epilogue
 #print axioms Scc.X86.C13_exit_check
